@@ -10,7 +10,11 @@ is proved from the definition, `ClRange.sha256_length`), and therefore
 `ln ≥ 321`) that is `|floor(s / c) − x| ≥ 2^64` for every response (`*_hidden`).
 The secret `x` may have either sign (`mask_floor` holds for all `x`).
 
-`ratio_note`: the quotient of two responses with blindings of equal length is at most 3.
+`ratio_note`: the quotient of two responses with blindings of equal length is at most 2.
+`zkpok_masks`, `pok_masks`: the same for every sigma protocol inside the two composite proofs
+(`ZKPoK::generate_proof`, `PoKSignature::proof_gen`), including the per-attribute loops.
+Not covered (not a for-every-tape fact): the responses inside the Boudot range proofs, whose
+blindings are uniform `rand_int` draws from an interval starting at 0 or 1, not `random_bits`.
 -/
 import ZkProofs.Lemmas.ClRange
 set_option linter.unusedVariables false
@@ -269,6 +273,304 @@ theorem nisp5_hidden (cs : Suite) (hlin : 256 ≤ cs.lin) (hln : 321 ≤ cs.ln) 
     m7.hidden hc0 hlt (by omega), m8.hidden hc0 hlt (by omega), m9.hidden hc0 hlt (by omega)⟩
   obtain ⟨m, hm, s, hs, hM⟩ := m5 j hj
   exact ⟨m, s, hm, hs, hM.hidden hc0 hlt hln⟩
+
+
+/-! ### 9. dividing one response by another -/
+
+/-- **Quotient of two responses.** For `s = r + c·x`, `s' = r' + c·x'` whose blindings have the
+same bit length `n` (and dominate `c·x`, `c·x'`), `floor(s / s') ∈ {0, 1, 2}`: a number that
+carries no information about a secret of more than a few bits; in particular it misses any secret
+`x ≥ 2^64 + 2` by at least `2^64`. (For blindings of different lengths `n > n'` the quotient is
+`≈ 2^(n−n')·r/r'`, again a function of the blindings and the public lengths only.) -/
+theorem ratio_note {s s' r r' c x x' : Int} {n : Nat} (hn : 0 < n) (hs : s = r + c * x)
+    (hs' : s' = r' + c * x') (hr : 2 ^ (n - 1) ≤ r) (hr2 : r < 2 ^ n) (hr' : 2 ^ (n - 1) ≤ r')
+    (h1 : 0 ≤ c * x) (h2 : c * x < 2 ^ (n - 1)) (h3 : 0 ≤ c * x') :
+    0 ≤ s / s' ∧ s / s' ≤ 2 ∧ (2 ^ 64 + 2 ≤ x → 2 ^ 64 ≤ |s / s' - x|) := by
+  have hp : (0 : Int) < 2 ^ (n - 1) := by positivity
+  have h2n : (2 : Int) ^ n = 2 * 2 ^ (n - 1) := by
+    rw [← pow_succ']; congr 1; omega
+  have hs'pos : 0 < s' := by rw [hs']; linarith
+  have hs0 : 0 ≤ s := by rw [hs]; linarith
+  have hlt : s / s' < 3 := Int.ediv_lt_of_lt_mul hs'pos (by rw [hs, hs']; nlinarith)
+  have h0 : 0 ≤ s / s' := Int.ediv_nonneg hs0 hs'pos.le
+  refine ⟨h0, by omega, fun hx => ?_⟩
+  rw [abs_of_nonpos (by omega)]
+  omega
+
+/-! ### 10. the two composite proofs (`ZKPoK`, `PoKSignature`) -/
+
+/-- Both responses of a `nisp2sec` proof `pv` for the commitment value `cv` under bases `g, h` are
+masked: `s1` answers for `m`, `s2` for the opening `rnd`, an `ln`-bit non-negative integer (which
+the proof itself no longer carries: `publicPart`). -/
+def Sec2Masked (cs : Suite) (pv : NISPSecrets) (g h cv m rnd : Int) : Prop :=
+  Masked pv.s1 (hashInts [g, h, cv, pv.t]) m (blindLen cs cs.ln) ∧
+  Masked pv.s2 (hashInts [g, h, cv, pv.t]) rnd (blindLen cs cs.ln)
+
+theorem Sec2Masked.hidden {cs : Suite} {pv : NISPSecrets} {g h cv m rnd : Int}
+    (hm : Sec2Masked cs pv g h cv m rnd) (hlin : 256 ≤ cs.lin)
+    (hc : hashInts [g, h, cv, pv.t] ≠ 0) :
+    2 ^ 64 ≤ |pv.s1 / hashInts [g, h, cv, pv.t] - m| ∧
+    2 ^ 64 ≤ |pv.s2 / hashInts [g, h, cv, pv.t] - rnd| := by
+  have hc0 := lt_of_le_of_ne (hashInts_nonneg _) (Ne.symm hc)
+  have hb := blindLen_ge cs cs.ln hlin
+  exact ⟨hm.1.hidden hc0 (hashInts_lt _) (by omega), hm.2.hidden hc0 (hashInts_lt _) (by omega)⟩
+
+theorem commitWithPk_randomness {cs : Suite} {msgs : List Int} {pk : PublicKey} {bases : List Int}
+    {U : Option (List Nat)} {c : Commitment} {t t' : List Draw}
+    (h : commitWithPk cs msgs pk bases U t = .ok (c, t')) :
+    0 ≤ c.randomness ∧ bitLen c.randomness = cs.ln := by
+  unfold commitWithPk at h
+  obtain ⟨r, t1, hr, H1⟩ := bind_ok_inv h
+  obtain ⟨cx, t2, hcx, H2⟩ := bind_ok_inv H1
+  obtain ⟨hr', t3, hhr, H3⟩ := bind_ok_inv H2
+  obtain ⟨rfl, -⟩ := pure_ok_iff.mp H3
+  obtain ⟨_, _, _, _, r0, rb⟩ := randomBits_ok_inv hr
+  exact ⟨r0, rb⟩
+
+theorem commitWithCpk_randomness {cs : Suite} {msgs : List Int} {cpk : CommitmentPK}
+    {U : Option (List Nat)} {c : Commitment} {t t' : List Draw}
+    (h : commitWithCpk cs msgs cpk U t = .ok (c, t')) :
+    0 ≤ c.randomness ∧ bitLen c.randomness = cs.ln := by
+  unfold commitWithCpk at h
+  obtain ⟨r, t1, hr, H1⟩ := bind_ok_inv h
+  obtain ⟨cx, t2, hcx, H2⟩ := bind_ok_inv H1
+  obtain ⟨hr', t3, hhr, H3⟩ := bind_ok_inv H2
+  obtain ⟨rfl, -⟩ := pure_ok_iff.mp H3
+  obtain ⟨_, _, _, _, r0, rb⟩ := randomBits_ok_inv hr
+  exact ⟨r0, rb⟩
+
+/-- the per-attribute proofs of the issuance proof -/
+theorem zkMiLoop_masks {cs : Suite} {pk : PublicKey} {bases msgs : List Int} {U : List Nat}
+    {ps : List ProofOfValue} {rs : List RangeProof} {t t' : List Draw}
+    (h : zkMiLoop cs pk bases msgs U t = .ok ((ps, rs), t')) :
+    ps.length = U.length ∧ ∀ k (hk : k < U.length), ∃ pv mi ai rnd, ps[k]? = some pv ∧
+      msgs[U[k]]? = some mi ∧ bases[U[k]]? = some ai ∧ 0 ≤ rnd ∧ bitLen rnd = cs.ln ∧
+      Sec2Masked cs pv.value ai pk.b pv.commitment.value mi rnd := by
+  induction U generalizing ps rs t t' with
+  | nil =>
+    obtain ⟨h, -⟩ := pure_ok_iff.mp h
+    simp only [Prod.mk.injEq] at h
+    obtain ⟨rfl, rfl⟩ := h
+    simp
+  | cons i is ih =>
+    unfold zkMiLoop at h
+    obtain ⟨mi, t1, hmi, H1⟩ := bind_ok_inv h
+    obtain ⟨ai, t2, hai, H2⟩ := bind_ok_inv H1
+    obtain ⟨cmi, t3, hcmi, H3⟩ := bind_ok_inv H2
+    obtain ⟨pv, t4, hpv, H4⟩ := bind_ok_inv H3
+    obtain ⟨rp, t5, hrp, H5⟩ := bind_ok_inv H4
+    obtain ⟨p, t6, hp, H6⟩ := bind_ok_inv H5
+    obtain ⟨ps', rs'⟩ := p
+    obtain ⟨H6, -⟩ := pure_ok_iff.mp H6
+    simp only [Prod.mk.injEq] at H6
+    obtain ⟨rfl, rfl⟩ := H6
+    obtain ⟨hmi, -⟩ := idx_ok_iff.mp hmi
+    obtain ⟨hai, -⟩ := idx_ok_iff.mp hai
+    obtain ⟨r0, rb⟩ := commitWithPk_randomness hcmi
+    have hm := nisp2sec_masks cs mi cmi ai pk.b pk.N _ _ pv hpv
+    obtain ⟨hl, hall⟩ := ih hp
+    refine ⟨by simp [hl], fun k hk => ?_⟩
+    cases k with
+    | zero => exact ⟨⟨pv, publicPart cmi⟩, mi, ai, cmi.randomness, by simp, by simpa using hmi,
+        by simpa using hai, r0, rb, hm⟩
+    | succ k =>
+      obtain ⟨pv', mi', ai', rnd', e1, e2, e3, e4⟩ := hall k (by simpa using hk)
+      exact ⟨pv', mi', ai', rnd', by simpa using e1, by simpa using e2, by simpa using e3, e4⟩
+
+/-- the per-attribute proofs of the proof of knowledge of a signature -/
+theorem pokMiLoop_masks {cs : Suite} {cpk : CommitmentPK} {msgs : List Int} {U : List Nat}
+    {ps : List ProofOfValue} {rs : List RangeProof} {t t' : List Draw}
+    (h : pokMiLoop cs cpk msgs U t = .ok ((ps, rs), t')) :
+    ps.length = U.length ∧ ∀ k (hk : k < U.length), ∃ pv mi gi rnd, ps[k]? = some pv ∧
+      msgs[U[k]]? = some mi ∧ cpk.gBases[U[k]]? = some gi ∧ 0 ≤ rnd ∧ bitLen rnd = cs.ln ∧
+      Sec2Masked cs pv.value gi cpk.h pv.commitment.value mi rnd := by
+  induction U generalizing ps rs t t' with
+  | nil =>
+    obtain ⟨h, -⟩ := pure_ok_iff.mp h
+    simp only [Prod.mk.injEq] at h
+    obtain ⟨rfl, rfl⟩ := h
+    simp
+  | cons i is ih =>
+    unfold pokMiLoop at h
+    obtain ⟨mi, t1, hmi, H1⟩ := bind_ok_inv h
+    obtain ⟨gi, t2, hgi, H2⟩ := bind_ok_inv H1
+    obtain ⟨cmi, t3, hcmi, H3⟩ := bind_ok_inv H2
+    obtain ⟨pv, t4, hpv, H4⟩ := bind_ok_inv H3
+    obtain ⟨rp, t5, hrp, H5⟩ := bind_ok_inv H4
+    obtain ⟨p, t6, hp, H6⟩ := bind_ok_inv H5
+    obtain ⟨ps', rs'⟩ := p
+    obtain ⟨H6, -⟩ := pure_ok_iff.mp H6
+    simp only [Prod.mk.injEq] at H6
+    obtain ⟨rfl, rfl⟩ := H6
+    obtain ⟨hmi, -⟩ := idx_ok_iff.mp hmi
+    obtain ⟨hgi, -⟩ := idx_ok_iff.mp hgi
+    obtain ⟨r0, rb⟩ := commitWithCpk_randomness hcmi
+    have hm := nisp2sec_masks cs mi cmi gi cpk.h cpk.N _ _ pv hpv
+    obtain ⟨hl, hall⟩ := ih hp
+    refine ⟨by simp [hl], fun k hk => ?_⟩
+    cases k with
+    | zero => exact ⟨⟨pv, publicPart cmi⟩, mi, gi, cmi.randomness, by simp, by simpa using hmi,
+        by simpa using hgi, r0, rb, hm⟩
+    | succ k =>
+      obtain ⟨pv', mi', gi', rnd', e1, e2, e3, e4⟩ := hall k (by simpa using hk)
+      exact ⟨pv', mi', gi', rnd', by simpa using e1, by simpa using e2, by simpa using e3, e4⟩
+
+/-- conclusion of `multi_masks` -/
+def MultiMasked (cs : Suite) (msgs : List Int) (c : Commitment) (pk : PublicKey) (bases : List Int)
+    (unrevealed : Option (List Nat)) (π : NISPMultiSecrets) : Prop :=
+  ∃ as : List Int, (multiIx msgs unrevealed).map (fun i => bases[i]?) = as.map some ∧
+    let ch := hashInts (as ++ [pk.b, c.value, π.t])
+    π.s1.length = (multiIx msgs unrevealed).length ∧
+    (∀ j (hj : j < (multiIx msgs unrevealed).length), ∃ m,
+      msgs[(multiIx msgs unrevealed)[j]]? = some m ∧
+      ∃ s, π.s1[j]? = some s ∧ Masked s ch m (blindLen cs cs.lm)) ∧
+    Masked π.s2 ch c.randomness (blindLen cs cs.ln)
+
+/-- conclusion of `nisp2_masks` -/
+def Nisp2Masked (cs : Suite) (msgs : List Int) (c1 c2 : Commitment) (U : List Nat)
+    (π : NISP2Commitments) : Prop :=
+  (0 ≤ π.challenge ∧ π.challenge < 2 ^ 256) ∧
+  π.d.length = U.length ∧
+  (∀ j (hj : j < U.length), ∃ m, msgs[U[j]]? = some m ∧
+    ∃ s, π.d[j]? = some s ∧ Masked s π.challenge m (blindLen cs cs.lm)) ∧
+  Masked π.d1 π.challenge c1.randomness (blindLen cs cs.ln) ∧
+  Masked π.d2 π.challenge c2.randomness (blindLen cs cs.ln)
+
+/-- conclusion of `nisp5_masks`, with the four opening randomnesses `rx, w, rw, re` of
+`Cx, Cv, Cw, Ce` as parameters (the published proof carries the commitments without them). -/
+def SpokMasked (cs : Suite) (σ : Signature) (msgs : List Int) (U : List Nat) (π : SignaturePoK)
+    (rx w rw re : Int) : Prop :=
+  (0 ≤ π.challenge ∧ π.challenge < 2 ^ 256) ∧
+  Masked π.s1 π.challenge rw (blindLen cs cs.ln) ∧
+  Masked π.s2 π.challenge (rw * σ.e) (blindLen cs (cs.ln + cs.le)) ∧
+  Masked π.s3 π.challenge rx (blindLen cs cs.ln) ∧
+  Masked π.s4 π.challenge σ.e cs.ln ∧
+  (π.s5.length = U.length ∧ ∀ j (hj : j < U.length), ∃ m, msgs[U[j]]? = some m ∧
+    ∃ s, π.s5[j]? = some s ∧ Masked s π.challenge m cs.ln) ∧
+  Masked π.s6 π.challenge σ.s (blindLen cs (cs.ls + 1)) ∧
+  Masked π.s7 π.challenge w (blindLen cs cs.ln) ∧
+  Masked π.s8 π.challenge (w * σ.e) (blindLen cs (cs.ln + cs.le)) ∧
+  Masked π.s9 π.challenge re (blindLen cs cs.ln)
+
+theorem MultiMasked.hidden {cs : Suite} {msgs : List Int} {c : Commitment} {pk : PublicKey}
+    {bases : List Int} {unrevealed : Option (List Nat)} {π : NISPMultiSecrets}
+    (hm : MultiMasked cs msgs c pk bases unrevealed π) (hlin : 256 ≤ cs.lin) :
+    ∃ ch : Int, 0 ≤ ch ∧ ch < 2 ^ 256 ∧ (ch ≠ 0 →
+      (∀ j (hj : j < (multiIx msgs unrevealed).length), ∃ m s,
+        msgs[(multiIx msgs unrevealed)[j]]? = some m ∧ π.s1[j]? = some s ∧ 2 ^ 64 ≤ |s / ch - m|) ∧
+      2 ^ 64 ≤ |π.s2 / ch - c.randomness|) := by
+  obtain ⟨as, -, -, h1, h2⟩ := hm
+  refine ⟨hashInts (as ++ [pk.b, c.value, π.t]), hashInts_nonneg _, hashInts_lt _, fun hc => ?_⟩
+  have hc0 := lt_of_le_of_ne (hashInts_nonneg _) (Ne.symm hc)
+  have hb := blindLen_ge cs cs.ln hlin
+  have hb' := blindLen_ge cs cs.lm hlin
+  refine ⟨fun j hj => ?_, h2.hidden hc0 (hashInts_lt _) (by omega)⟩
+  obtain ⟨m, hm, s, hs, hM⟩ := h1 j hj
+  exact ⟨m, s, hm, hs, hM.hidden hc0 (hashInts_lt _) (by omega)⟩
+
+theorem Nisp2Masked.hidden {cs : Suite} {msgs : List Int} {c1 c2 : Commitment} {U : List Nat}
+    {π : NISP2Commitments} (hm : Nisp2Masked cs msgs c1 c2 U π) (hlin : 256 ≤ cs.lin)
+    (hc : π.challenge ≠ 0) :
+    (∀ j (hj : j < U.length), ∃ m s, msgs[U[j]]? = some m ∧ π.d[j]? = some s ∧
+      2 ^ 64 ≤ |s / π.challenge - m|) ∧
+    2 ^ 64 ≤ |π.d1 / π.challenge - c1.randomness| ∧
+    2 ^ 64 ≤ |π.d2 / π.challenge - c2.randomness| := by
+  obtain ⟨⟨h0, hlt⟩, -, h1, h2, h3⟩ := hm
+  have hc0 := lt_of_le_of_ne h0 (Ne.symm hc)
+  have hb := blindLen_ge cs cs.ln hlin
+  have hb' := blindLen_ge cs cs.lm hlin
+  refine ⟨fun j hj => ?_, h2.hidden hc0 hlt (by omega), h3.hidden hc0 hlt (by omega)⟩
+  obtain ⟨m, hm, s, hs, hM⟩ := h1 j hj
+  exact ⟨m, s, hm, hs, hM.hidden hc0 hlt (by omega)⟩
+
+theorem SpokMasked.hidden {cs : Suite} {σ : Signature} {msgs : List Int} {U : List Nat}
+    {π : SignaturePoK} {rx w rw re : Int} (hm : SpokMasked cs σ msgs U π rx w rw re)
+    (hlin : 256 ≤ cs.lin) (hln : 321 ≤ cs.ln) (hc : π.challenge ≠ 0) :
+    2 ^ 64 ≤ |π.s1 / π.challenge - rw| ∧
+    2 ^ 64 ≤ |π.s2 / π.challenge - rw * σ.e| ∧
+    2 ^ 64 ≤ |π.s3 / π.challenge - rx| ∧
+    2 ^ 64 ≤ |π.s4 / π.challenge - σ.e| ∧
+    (∀ j (hj : j < U.length), ∃ m s, msgs[U[j]]? = some m ∧ π.s5[j]? = some s ∧
+      2 ^ 64 ≤ |s / π.challenge - m|) ∧
+    2 ^ 64 ≤ |π.s6 / π.challenge - σ.s| ∧
+    2 ^ 64 ≤ |π.s7 / π.challenge - w| ∧
+    2 ^ 64 ≤ |π.s8 / π.challenge - w * σ.e| ∧
+    2 ^ 64 ≤ |π.s9 / π.challenge - re| := by
+  obtain ⟨⟨h0, hlt⟩, m1, m2, m3, m4, ⟨-, m5⟩, m6, m7, m8, m9⟩ := hm
+  have hc0 := lt_of_le_of_ne h0 (Ne.symm hc)
+  have b1 := blindLen_ge cs cs.ln hlin
+  have b2 := blindLen_ge cs (cs.ln + cs.le) hlin
+  have b3 := blindLen_ge cs (cs.ls + 1) hlin
+  refine ⟨m1.hidden hc0 hlt (by omega), m2.hidden hc0 hlt (by omega), m3.hidden hc0 hlt (by omega),
+    m4.hidden hc0 hlt hln, fun j hj => ?_, m6.hidden hc0 hlt (by omega),
+    m7.hidden hc0 hlt (by omega), m8.hidden hc0 hlt (by omega), m9.hidden hc0 hlt (by omega)⟩
+  obtain ⟨m, hm, s, hs, hM⟩ := m5 j hj
+  exact ⟨m, s, hm, hs, hM.hidden hc0 hlt hln⟩
+
+/-- **C19 for the issuance proof** (`ZKPoK::generate_proof`): every response of every sigma
+protocol inside it is masked — the optional `nisp2` proof, the `nispMultiSecrets` proof, one
+`nisp2sec` proof per hidden attribute, and the `nisp2sec` proof for the opening `r` of `C`. -/
+theorem zkpok_masks (cs : Suite) (msgs : List Int) (C : Commitment) (Ct : Option Commitment)
+    (pk : PublicKey) (bases : List Int) (cpk : Option CommitmentPK) (U : List Nat)
+    (t t' : List Draw) (π : ZKPoK) (h : zkpokGen cs msgs C Ct pk bases cpk U t = .ok (π, t')) :
+    (∀ p2, π.proofCCtrusted = some p2 → ∃ ct, Ct = some ct ∧ Nisp2Masked cs msgs C ct U p2) ∧
+    MultiMasked cs msgs C pk bases (some U) π.proofMsgs ∧
+    (π.proofsMi.length = U.length ∧ ∀ k (hk : k < U.length), ∃ pv mi ai rnd,
+      π.proofsMi[k]? = some pv ∧ msgs[U[k]]? = some mi ∧ bases[U[k]]? = some ai ∧
+      0 ≤ rnd ∧ bitLen rnd = cs.ln ∧ Sec2Masked cs pv.value ai pk.b pv.commitment.value mi rnd) ∧
+    ∃ a0 rnd, bases[0]? = some a0 ∧ 0 ≤ rnd ∧ bitLen rnd = cs.ln ∧
+      Sec2Masked cs π.proofR.value a0 pk.b π.proofR.commitment.value C.randomness rnd := by
+  unfold zkpokGen at h
+  obtain ⟨p2, t1, hp2, H1⟩ := bind_ok_inv h
+  obtain ⟨pm, t2, hpm, H2⟩ := bind_ok_inv H1
+  obtain ⟨p, t3, hps, H3⟩ := bind_ok_inv H2
+  obtain ⟨ps, rs⟩ := p
+  simp only [] at H3
+  obtain ⟨cr, t4, hcr, H4⟩ := bind_ok_inv H3
+  obtain ⟨a0, t5, ha0, H5⟩ := bind_ok_inv H4
+  obtain ⟨pr, t6, hpr, H6⟩ := bind_ok_inv H5
+  obtain ⟨rpr, t7, hrpr, H7⟩ := bind_ok_inv H6
+  obtain ⟨rfl, -⟩ := pure_ok_iff.mp H7
+  clear h H1 H2 H3 H4 H5 H6 H7
+  refine ⟨?_, multi_masks cs msgs C pk bases (some U) _ _ pm hpm, zkMiLoop_masks hps, ?_⟩
+  · intro q hq
+    simp only at hq
+    subst hq
+    cases Ct with
+    | none => cases (pure_ok_iff.mp hp2).1
+    | some ct =>
+      cases cpk with
+      | none => cases (pure_ok_iff.mp hp2).1
+      | some cpk' =>
+        simp only [] at hp2
+        obtain ⟨p, t8, hp, K⟩ := bind_ok_inv hp2
+        obtain ⟨hK, -⟩ := pure_ok_iff.mp K
+        obtain rfl := Option.some.inj hK
+        exact ⟨ct, rfl, nisp2_masks cs msgs C ct pk bases cpk' U _ _ p hp⟩
+  · obtain ⟨r0, rb⟩ := commitWithPk_randomness hcr
+    obtain ⟨ha0, -⟩ := idx_ok_iff.mp ha0
+    exact ⟨a0, cr.randomness, ha0, r0, rb, nisp2sec_masks cs _ cr a0 pk.b pk.N _ _ pr hpr⟩
+
+/-- **C19 for the proof of knowledge of a signature** (`PoKSignature::proof_gen`): the `nisp5`
+responses (for the openings `rx, w, rw, re` the published proof no longer carries) and one
+`nisp2sec` proof per hidden attribute. -/
+theorem pok_masks (cs : Suite) (σ : Signature) (cpk : CommitmentPK) (pk : PublicKey)
+    (bases msgs : List Int) (U : List Nat) (t t' : List Draw) (π : PoKSignature)
+    (h : proofGen cs σ cpk pk bases msgs U t = .ok (π, t')) :
+    (∃ rx w rw re, SpokMasked cs σ msgs U π.spok rx w rw re) ∧
+    (π.proofsMi.length = U.length ∧ ∀ k (hk : k < U.length), ∃ pv mi gi rnd,
+      π.proofsMi[k]? = some pv ∧ msgs[U[k]]? = some mi ∧ cpk.gBases[U[k]]? = some gi ∧
+      0 ≤ rnd ∧ bitLen rnd = cs.ln ∧ Sec2Masked cs pv.value gi cpk.h pv.commitment.value mi rnd) := by
+  unfold proofGen at h
+  obtain ⟨spok, t1, hspok, H1⟩ := bind_ok_inv h
+  obtain ⟨g0, t2, hg0, H2⟩ := bind_ok_inv H1
+  obtain ⟨rpe, t3, hrpe, H3⟩ := bind_ok_inv H2
+  obtain ⟨p, t4, hps, H4⟩ := bind_ok_inv H3
+  obtain ⟨ps, rs⟩ := p
+  simp only [] at H4
+  obtain ⟨rfl, -⟩ := pure_ok_iff.mp H4
+  exact ⟨⟨spok.Cx.randomness, spok.Cv.randomness, spok.Cw.randomness, spok.Ce.randomness,
+    nisp5_masks cs σ cpk pk bases msgs U _ _ spok hspok⟩, pokMiLoop_masks hps⟩
 
 /-- The suite relations used above hold for the three generated suites. -/
 example : ∀ c ∈ [Zk.Generated.cl1024, Zk.Generated.cl2048, Zk.Generated.cl3072],
